@@ -558,3 +558,137 @@ Proof.
     destruct (0 <? want) eqn:E; [|lia].
     split; [reflexivity | intros; lia].
 Qed.
+
+(* ------------------------------------------------------------------ *)
+(* consumers                                                           *)
+(* ------------------------------------------------------------------ *)
+
+Lemma read_fuel_ok c : (length (rd_buf (cr_inner c)) < read_fuel (cr_inner c))%nat.
+Proof. unfold read_fuel. lia. Qed.
+
+(* one Read with the fuel the consumers use *)
+Lemma cread_call sig c P want :
+  sig_ok sig -> cinv sig c P ->
+  exists c', cread (read_fuel (cr_inner c)) want c [] =
+     (rev (firstn (Z.to_nat want) P), (if blen P <? want then REOF else RNone), c')
+     /\ (want <= blen P -> cinv sig c' (skipn (Z.to_nat want) P)).
+Proof.
+  intros Hsig Hinv.
+  destruct (cread_spec sig Hsig (read_fuel (cr_inner c)) c P want [] Hinv (read_fuel_ok c))
+    as (c' & Hc & Hi).
+  exists c'. rewrite Hc, rev_append_rev, app_nil_r. split; [reflexivity | exact Hi].
+Qed.
+
+Lemma read_full_0 f want c racc : want <= 0 -> read_full f want c racc = (racc, RNone, c).
+Proof.
+  intros H. destruct f; cbn [read_full]; destruct (want <=? 0) eqn:E; try reflexivity; lia.
+Qed.
+
+(* io.ReadFull: delivers the first min(want,|P|) payload bytes; io.EOF iff short *)
+Lemma read_full_spec sig f c P want :
+  sig_ok sig -> cinv sig c P ->
+  exists c', read_full (S f) want c [] =
+     (rev (firstn (Z.to_nat want) P), (if blen P <? want then REOF else RNone), c')
+     /\ (want <= blen P -> cinv sig c' (skipn (Z.to_nat want) P)).
+Proof.
+  intros Hsig Hinv. pose proof (blen_nonneg P) as HP.
+  destruct (want <=? 0) eqn:Ew.
+  - rewrite read_full_0 by lia. exists c.
+    replace (Z.to_nat want) with 0%nat by lia. cbn [firstn skipn rev].
+    destruct (blen P <? want) eqn:E; [lia|]. split; [reflexivity | intros _; exact Hinv].
+  - cbn [read_full]. rewrite Ew.
+    destruct (cread_call sig c P want Hsig Hinv) as (c' & Hc & Hi).
+    rewrite Hc. exists c'. split; [|exact Hi].
+    destruct (blen P <? want) eqn:E.
+    + rewrite app_nil_r. reflexivity.
+    + assert (Hl : blen (rev (firstn (Z.to_nat want) P)) = want).
+      { unfold blen in *. rewrite rev_length, firstn_length. lia. }
+      rewrite Hl. destruct (want =? 0) eqn:E0; [lia|].
+      rewrite read_full_0 by lia. rewrite app_nil_r. reflexivity.
+Qed.
+
+(* drain: read until EOF with any buffer size >= 1 collects the whole remaining payload *)
+Lemma drain_spec sig : sig_ok sig -> forall fuel c P bufsz racc,
+  1 <= bufsz -> cinv sig c P -> (length P < fuel)%nat ->
+  drain fuel bufsz c racc = (rev P ++ racc, REOF).
+Proof.
+  intros Hsig. induction fuel as [|f IH]; intros c P bufsz racc Hb Hinv Hf; [lia|].
+  cbn [drain].
+  destruct (cread_call sig c P bufsz Hsig Hinv) as (c' & Hc & Hi).
+  rewrite Hc. destruct (blen P <? bufsz) eqn:E.
+  - rewrite firstn_all2 by (unfold blen in E; lia). reflexivity.
+  - assert (Hlen : (1 <= length (rev (firstn (Z.to_nat bufsz) P)))%nat).
+    { rewrite rev_length, firstn_length. unfold blen in E. lia. }
+    destruct (rev (firstn (Z.to_nat bufsz) P)) as [|x rout] eqn:Er; [cbn [length] in Hlen; lia|].
+    rewrite <- Er.
+    rewrite (IH c' (skipn (Z.to_nat bufsz) P) bufsz _ Hb).
+    + rewrite app_assoc, <- rev_app_distr, firstn_skipn. reflexivity.
+    + apply Hi. lia.
+    + rewrite skipn_length. unfold blen in E. lia.
+Qed.
+
+Lemma rev_append_rev_id (l : list N) : rev_append (rev l) [] = l.
+Proof. rewrite rev_append_rev, rev_involutive. apply app_nil_r. Qed.
+
+(* consumer ReadAll(reader, declared size): mem, bolt and (after the fix) fs backends *)
+Theorem decode_readall_any_schedule sig chunks sched eofw :
+  sig_ok sig -> Forall (fun c => c <> [] /\ blen c < 2 ^ 62) chunks ->
+  decode_readall (mk (encode sig chunks) sched eofw) (blen (concat chunks)) = DOk (concat chunks).
+Proof.
+  intros Hsig Hcs. unfold decode_readall, read_fuel.
+  set (P := concat chunks).
+  destruct (read_full_spec sig (S (length (rd_buf (mk (encode sig chunks) sched eofw))))
+              (cnew (mk (encode sig chunks) sched eofw)) P (blen P) Hsig (cinv_cnew sig chunks sched eofw Hcs))
+    as (c' & Hr & Hi).
+  rewrite Hr.
+  assert (Hn : Z.to_nat (blen P) = length P) by (unfold blen; lia).
+  rewrite Hn in *. rewrite firstn_all in *. rewrite skipn_all in Hi.
+  replace (blen (rev P)) with (blen P) by (unfold blen; rewrite rev_length; reflexivity).
+  rewrite Z.ltb_irrefl.
+  rewrite (drain_spec sig Hsig _ c' [] 512 []); [| lia | apply Hi; lia | cbn [length]; lia].
+  cbn [rev app]. rewrite rev_append_rev_id. reflexivity.
+Qed.
+
+(* consumer copy loop with any buffer size >= 1 *)
+Theorem decode_copy_any_schedule sig chunks sched eofw bufsz :
+  sig_ok sig -> Forall (fun c => c <> [] /\ blen c < 2 ^ 62) chunks -> 1 <= bufsz ->
+  decode_copy (mk (encode sig chunks) sched eofw) bufsz = concat chunks.
+Proof.
+  intros Hsig Hcs Hb. unfold decode_copy.
+  rewrite (drain_spec sig Hsig _ _ (concat chunks) bufsz [] Hb (cinv_cnew sig chunks sched eofw Hcs)).
+  - cbn [fst]. rewrite app_nil_r. apply rev_append_rev_id.
+  - unfold read_fuel, mk; cbn [rd_buf]. pose proof (concat_le_encode sig chunks). lia.
+Qed.
+
+(* a declared decoded length different from the payload length is never accepted *)
+Theorem decode_wrong_length_rejected sig chunks sched eofw declared :
+  sig_ok sig -> Forall (fun c => c <> [] /\ blen c < 2 ^ 62) chunks ->
+  0 <= declared -> declared <> blen (concat chunks) ->
+  forall p, decode_readall (mk (encode sig chunks) sched eofw) declared <> DOk p.
+Proof.
+  intros Hsig Hcs Hd Hne p. unfold decode_readall.
+  set (P := concat chunks) in *.
+  set (r := mk (encode sig chunks) sched eofw).
+  assert (HlenP : (length P < read_fuel r)%nat).
+  { unfold read_fuel, r, mk; cbn [rd_buf]. pose proof (concat_le_encode sig chunks). fold P in H. lia. }
+  destruct (read_full_spec sig (S (length (rd_buf r))) (cnew r) P declared Hsig
+              (cinv_cnew sig chunks sched eofw Hcs)) as (c' & Hr & Hi).
+  change (read_full (read_fuel r)) with (read_full (S (S (length (rd_buf r))))).
+  rewrite Hr.
+  assert (Hl : blen (rev (firstn (Z.to_nat declared) P)) = Z.min declared (blen P)).
+  { unfold blen. rewrite rev_length, firstn_length. lia. }
+  rewrite Hl.
+  destruct (Z.min declared (blen P) <? declared) eqn:E; [discriminate|].
+  assert (Hlt : declared < blen P) by lia.
+  rewrite (drain_spec sig Hsig _ c' (skipn (Z.to_nat declared) P) 512 []);
+    [| lia | apply Hi; lia | rewrite skipn_length; lia].
+  rewrite app_nil_r.
+  destruct (rev (skipn (Z.to_nat declared) P)) as [|x l] eqn:Er; [|discriminate].
+  apply (f_equal (@length N)) in Er. rewrite rev_length, skipn_length in Er.
+  cbn [length] in Er. unfold blen in Hlt. lia.
+Qed.
+
+Print Assumptions scan_hex_of_Z.
+Print Assumptions decode_readall_any_schedule.
+Print Assumptions decode_copy_any_schedule.
+Print Assumptions decode_wrong_length_rejected.
